@@ -17,7 +17,9 @@ RULE = ("Case = (ordering in {random, sorted, reversed, alternating sign, consta
         "Bounds: |mean-exact| <= 4 n eps max|v|; |var-exact| <= 8 n eps kappa var with kappa = sqrt(1+mean^2/var) (constant streams: "
         "0 <= var <= 8 n eps mean^2); |smoothed-exact| <= 8 eps max|v| / alpha; all results finite, std real and = sqrt(var). Explainer "
         "level: IncrementalPFI / IncrementalSage runs whose losses carry a large common offset (1e6..1e12), float run vs exact-rational "
-        "twin with identical seeds: |delta importance| <= 16 (d+2) t eps max(|loss|, scale) after every call; QUIET TAIL: an active stream followed by "
+        "twin with identical seeds: |delta importance| <= 16 (d+2) t eps max(|loss|, scale) after every call; TIGHT variant (IncrementalPFI, one inner "
+        "sample, integer data / model / loss values with a power-of-two offset 2^30..2^40, so that every loss and every per-observation difference is exact): "
+        "|delta importance| <= 16 (d+2) t eps max(1, SPREAD of the losses) - a large common loss level must not cost digits; QUIET TAIL: an active stream followed by "
         "hundreds to thousands of constant observations (dynamic setting, alpha 0.3..0.9) so that the smoothed importances decay through the "
         "subnormal range to zero - importance values, variances, both normalised views and the confidence bounds must stay finite throughout. Non-trivial: kappa >= 1e3 "
         "and n >= 1e3 (trackers) / offset >= 1e6 and >= 3 explained observations (explainers); distinct by case digest.")
@@ -178,6 +180,13 @@ def run_explainer(case):
             seq.append({refx.norm_key(k): v for k, v in ex.importance_values.items()})
         outs[mode] = seq
         scales[mode] = max(h.loss.maxabs, h.loss.scale)
+        if case.get('tight') and mode == 'float':
+            # every loss value is an exactly representable integer (plus a power-of-two offset): the per-observation differences are
+            # exact, so the error must be relative to the SPREAD of the losses, not to their level - a large common offset must not cost digits
+            lv = [float(c[2]) for c in h.loss.calls] or [0.0]
+            if any(v != int(v) or abs(v) >= 2.0 ** 52 for v in lv):
+                return Result(True, nontrivial=False, labels=['tight_not_applicable'])
+            scales[mode] = max(max(lv) - min(lv), 1.0)
     d = cfg['d']
     explained = 0
     for t, (a, b) in enumerate(zip(outs['exact'], outs['float']), start=1):
@@ -195,7 +204,26 @@ def run_explainer(case):
                               detail=(f'call {t}: importance of {f!r} float {float(g)!r} vs exact {float(a[f])!r}: error {err:.3g} > '
                                       f'16(d+2)t eps max|loss| = {tol:.3g} (loss offset {cfg["loss"].get("offset")})'))
     off = abs(cfg['loss'].get('offset') or 0)
-    return Result(True, nontrivial=off >= 1e6 and explained >= 3, labels=[case['cls'], f'offset={off:g}'])
+    return Result(True, nontrivial=off >= 1e6 and explained >= 3, labels=[case['cls'], f'offset={off:g}'] + (['tight'] if case.get('tight') else []))
+
+
+@st.composite
+def tight_cases(draw):
+    """IncrementalPFI with ONE inner sample on integer data, integer model and integer-valued losses carrying a power-of-two offset:
+    all losses and all per-observation contributions are exact in floating point."""
+    cfg = draw(cfgs.config_st(dmax=4, tmin=4, tmax=14, modes=('exact',), multi=False))
+    cfg['model']['outs'][0]['label'] = 'output'
+    for k in ('out_scale', 'opt', 'array_out'):
+        cfg['model'].pop(k, None)
+    cfg['n_inner'] = 1
+    for r in cfg['stream']:
+        r['x'] = [int(Q(v)) for v in r['x']]
+        r['y'] = int(Q(r['y']))
+        r['n_inner'] = None
+        r['opt'] = None
+    cfg['loss'] = {'kind': draw(st.sampled_from(['sq', 'abs', 'poly'])), 'c': [draw(st.integers(-3, 3)) for _ in range(4)],
+                   'offset': draw(st.sampled_from([2 ** 30, 2 ** 40, -2 ** 36]))}
+    return {'cls': 'pfi', 'cfg': cfg, 'tight': True}
 
 
 def run_quiet_tail(case):
@@ -286,7 +314,7 @@ def explainer_cases(draw):
     return {'cls': draw(st.sampled_from(['pfi', 'sage'])), 'cfg': cfg}
 
 
-SUBS = {'tracker': run_tracker, 'explainer': run_explainer, 'quiet_tail': run_quiet_tail}
+SUBS = {'tracker': run_tracker, 'explainer': run_explainer, 'quiet_tail': run_quiet_tail, 'explainer_tight': run_explainer}
 
 
 def replay(sub, case):
@@ -322,4 +350,6 @@ def run(ctx):
     ctx.extra['worst_ratio_to_unit_bound'] = {k: round(v, 4) for k, v in worst.items()}
     if not ctx.search('explainer', explainer_cases(), run_explainer, ctx.n(700, 16000)):
         return
-    ctx.search('quiet_tail', quiet_cases(), run_quiet_tail, ctx.n(16, 640), shrink=False)
+    if not ctx.search('quiet_tail', quiet_cases(), run_quiet_tail, ctx.n(16, 640), shrink=False):
+        return
+    ctx.search('explainer_tight', tight_cases(), run_explainer, ctx.n(300, 16000))
